@@ -18,7 +18,10 @@ CONSTANTS Aspect, Emit
 
 \* ------------------------------------------------------------------ visibility
 Mods == {"public", "protected", "private"}
-Sites == {"decl", "sub", "grand", "sibling", "outside", "closure"}    \* where the accessing code lives
+\* where the accessing code lives.  shared-trait: the code is a trait method used by the declaring class AND by the
+\* unrelated class X; it runs first in D (allowed) and then, the same code, in X -- the verdict belongs to the
+\* class that executes the code, not to the piece of code
+Sites == {"decl", "sub", "grand", "sibling", "outside", "closure", "shared-trait"}
 InstPaths == {"arrow", "dynamic", "index", "this"}
 StatPaths == {"scope", "self", "static", "parent"}
 ObjClasses == {"D", "S"}              \* runtime class of the target object / class named in ::
@@ -52,11 +55,13 @@ VisValid(x) ==
   /\ (x.path \in {"self", "static", "parent"} => x.obj = "D")
   \* code in D cannot hold "an S object that is $this"; closures live in D
   /\ (x.site = "closure" => x.path \in {"arrow", "scope"})
+  /\ (x.site = "shared-trait" => x.path \in {"arrow", "dynamic"} /\ ~x.static)
 
 \* ------------------------------------------------------------------ declared types
 Types == {"int", "string", "array", "D", "I", "J", "?int", "int|string", "?D", "?I"}
 \* interface I extends J; Impl implements I, ImplSub extends Impl; JImpl implements J, JImplSub extends JImpl
-Kinds == {"int", "string", "float", "bool", "null", "array", "objD", "objS", "objX", "objImpl", "objImplSub", "objJImpl", "objJImplSub"}
+\* objFakeD: an instance of a class with the same SHORT name as D declared in another namespace (Vendor\Plugin\D0)
+Kinds == {"int", "string", "float", "bool", "null", "array", "objD", "objS", "objX", "objImpl", "objImplSub", "objJImpl", "objJImplSub", "objFakeD"}
 Boundaries == {"prop", "static-prop", "param-func", "param-method", "param-static", "param-ctor", "param-closure", "return-func", "return-method", "return-closure"}
 IsParam(b) == b \in {"param-func", "param-method", "param-static", "param-ctor", "param-closure"}
 RECURSIVE Accepts(_, _)
